@@ -1,5 +1,7 @@
 import Toodee.Spec.Cells
 import Toodee.Proofs.CellsLemmas
+import Toodee.Proofs.CopyLemmas
+import Toodee.Properties.C20
 /-
   C04 — Operations on a mutable view never touch cells outside it (general part).
 
@@ -65,5 +67,99 @@ theorem C04_iter_positions (v : VW) (n : Nat) (h : v.Inv n) :
     exact ⟨c, hc, VW.pos_zero_add v c r⟩
   · intro c r hc hr
     rw [VW.coord?_pos h hc hr]; simp
+
+/-- the cells of a view, row-major: the data of the owned array `TooDee::from(view)` (C20_from_view) -/
+def VW.cellsOf (v : VW) (buf : List α) : List α :=
+  ((List.range v.numRows).map fun r => (List.range v.numCols).filterMap fun c => buf[v.pos c r]?).flatten
+
+/-- the owned array holding the same cells, seen as a view of its own buffer -/
+def VW.ownedShape (v : VW) : VW := ⟨⟨0, v.numCols * v.numRows⟩, v.numCols, v.numRows, v.numCols⟩
+
+/-- length of the copied-out cells, and cell `(c,r)` of the copy is cell `(c,r)` of the view (from C20_from_view) -/
+theorem VW.cellsOf_facts (v : VW) (buf : List α) (h : v.Inv buf.length) :
+    (v.cellsOf buf).length = v.numCols * v.numRows ∧
+    ∀ c r, c < v.numCols → r < v.numRows → (v.cellsOf buf)[r * v.numCols + c]? = buf[v.pos c r]? := by
+  obtain ⟨t, _, hinv, hC, hR, hdata, hcells⟩ := C20_from_view .release v buf h
+  have he : v.cellsOf buf = t.data := hdata.symm
+  rw [he]
+  refine ⟨by rw [hinv.len, hC, hR], fun c r hc hr => ?_⟩
+  have := hcells c r hc hr
+  rw [TD.pos, hC] at this
+  exact this
+
+theorem VW.ownedShape_pos (v : VW) (c r : Nat) : v.ownedShape.pos c r = r * v.numCols + c := by
+  simp [VW.ownedShape, VW.pos]
+
+theorem VW.ownedShape_inv {v : VW} {n : Nat} (h : v.Inv n) : v.ownedShape.Inv (v.numCols * v.numRows) := by
+  have harea := h.area_le
+  have hin := h.inside
+  have hword := h.word
+  refine ⟨Nat.le_refl _, h.zero, ?_, ?_, by omega, h.cols_word⟩
+  · show v.numCols * v.numRows = if v.numRows = 0 then 0 else (v.numRows - 1) * v.numCols + v.numCols
+    by_cases hR : v.numRows = 0
+    · simp [hR]
+    · rw [if_neg hR, Nat.mul_comm v.numCols]
+      exact (pred_mul_add v.numCols (Nat.pos_of_ne_zero hR)).symm
+  · show 0 + v.numCols * v.numRows ≤ _
+    omega
+
+/-- two row-major cell lists of the same shape that agree on every cell are equal -/
+theorem ext_cells {C R : Nat} {l1 l2 : List α} (h1 : l1.length = C * R) (h2 : l2.length = C * R)
+    (hc : ∀ c r, c < C → r < R → l1[r * C + c]? = l2[r * C + c]?) : l1 = l2 := by
+  apply List.ext_getElem?
+  intro i
+  by_cases hi : i < C * R
+  · have hC : 0 < C := by
+      rcases Nat.eq_zero_or_pos C with h0 | h0
+      · rw [h0, Nat.zero_mul] at hi; omega
+      · exact h0
+    have hr : i / C < R := (Nat.div_lt_iff_lt_mul hC).2 (by rw [Nat.mul_comm]; exact hi)
+    have := hc (i % C) (i / C) (Nat.mod_lt _ hC) hr
+    have e : i / C * C + i % C = i := by rw [Nat.mul_comm]; exact Nat.div_add_mod i C
+    rw [e] at this
+    exact this
+  · rw [List.getElem?_eq_none (by omega), List.getElem?_eq_none (by omega)]
+
+/-- **Inside the rectangle the effect is exactly the effect the same operation has on an owned array holding the same cells**
+    — for every cell permutation: applying `g` through the view and then copying the view out equals copying the view out and
+    applying the same `g` to the owned array. -/
+theorem C04_same_effect_perm (v : VW) (buf : List α) (h : v.Inv buf.length) (g : Nat × Nat → Nat × Nat)
+    (hg : ∀ c r, c < v.numCols → r < v.numRows → (g (c, r)).1 < v.numCols ∧ (g (c, r)).2 < v.numRows) :
+    v.cellsOf (gather buf (v.mapCells g)) = gather (v.cellsOf buf) (v.ownedShape.mapCells g) := by
+  obtain ⟨hl0, hg0⟩ := v.cellsOf_facts buf h
+  obtain ⟨hlen, _, hcell⟩ := C04_frame_perm v buf h g hg
+  have h' : v.Inv (gather buf (v.mapCells g)).length := by rw [hlen]; exact h
+  obtain ⟨hl1, hg1⟩ := v.cellsOf_facts _ h'
+  have hw : v.ownedShape.Inv (v.cellsOf buf).length := by rw [hl0]; exact VW.ownedShape_inv h
+  obtain ⟨hlen2, _, hcell2⟩ := C04_frame_perm v.ownedShape (v.cellsOf buf) hw g hg
+  apply ext_cells hl1 (by rw [hlen2, hl0])
+  intro c r hc hr
+  have hgc := hg c r hc hr
+  rw [hg1 c r hc hr, hcell c r hc hr]
+  have := hcell2 c r hc hr
+  rw [VW.ownedShape_pos, VW.ownedShape_pos] at this
+  rw [this, hg0 _ _ hgc.1 hgc.2]
+
+/-- … and for every overwrite -/
+theorem C04_same_effect_upd (v : VW) (buf : List α) (h : v.Inv buf.length) (f : Nat × Nat → Option α) :
+    v.cellsOf (v.updCells buf f) = v.ownedShape.updCells (v.cellsOf buf) f := by
+  obtain ⟨hl0, hg0⟩ := v.cellsOf_facts buf h
+  obtain ⟨hlen, _, hcell⟩ := C04_frame_upd v buf h f
+  have h' : v.Inv (v.updCells buf f).length := by rw [hlen]; exact h
+  obtain ⟨hl1, hg1⟩ := v.cellsOf_facts _ h'
+  have hw : v.ownedShape.Inv (v.cellsOf buf).length := by rw [hl0]; exact VW.ownedShape_inv h
+  obtain ⟨hlen2, _, hcell2⟩ := C04_frame_upd v.ownedShape (v.cellsOf buf) hw f
+  apply ext_cells hl1 (by rw [hlen2, hl0])
+  intro c r hc hr
+  rw [hg1 c r hc hr, hcell c r hc hr]
+  have := hcell2 c r hc hr
+  rw [VW.ownedShape_pos] at this
+  rw [this, hg0 c r hc hr]
+
+/-- the owned shape is a valid receiver over the copied cells -/
+theorem C04_owned_shape_inv (v : VW) (buf : List α) (h : v.Inv buf.length) :
+    v.ownedShape.Inv (v.cellsOf buf).length ∧ (v.cellsOf buf).length = v.numCols * v.numRows := by
+  obtain ⟨hl0, _⟩ := v.cellsOf_facts buf h
+  exact ⟨by rw [hl0]; exact VW.ownedShape_inv h, hl0⟩
 
 end Toodee
